@@ -347,6 +347,7 @@ type TLCResult struct {
 	ActionCover         map[string]int64
 	ErrorText           string
 	TraceDump           string
+	LastL               int // last value of the trace position variable `l` printed in a counterexample
 }
 
 var reStates = regexp.MustCompile(`^(\d+) states generated, (\d+) distinct states found`)
@@ -449,6 +450,11 @@ func (c *Ctx) runTLC(o TLCOpts) *TLCResult {
 					res.ActionCover[m[2]+"!"+m[1]] += n
 				} else if strings.HasPrefix(s, "Error:") {
 					inError = true
+				}
+				if inError && len(s) > 7 && s[:7] == `/\ l = ` {
+					if v, err := strconv.Atoi(strings.TrimSpace(s[7:])); err == nil {
+						res.LastL = v
+					}
 				}
 				if inError && len(errLines) < 400 {
 					errLines = append(errLines, s)
